@@ -279,9 +279,19 @@ def unit_literal(F, fn, bb, uap=None):
     return best[1] if best else None
 
 
+def param_of_type(fn, *needles):
+    """Which parameter (1-based) has a type that mentions one of `needles`: parameters are found by what they are, not by where
+    they stand in the list."""
+    for i in range(1, fn.raw.get("arg_count", 0) + 1):
+        if any(n in fn.locals[i] for n in needles):
+            return i
+    return None
+
+
 def to_list_gates(chk, F):
     fn = F.find(CORE, "runtime::eval::to_list")
     fk = "rink_core::runtime::eval::to_list"
+    TOP = (("arg", param_of_type(fn, "types::number::Number") or 2), ())
     divs = k2.call_blocks(fn, "types::numeric::Numeric::div_rem", "core::ops::arith::Div<&'b types::numeric::Numeric>>::div")
     if len(divs) < 2:
         raise AnchorLost("to_list: expected div_rem and a final division, found %d sites" % len(divs))
@@ -290,7 +300,7 @@ def to_list_gates(chk, F):
         if kind != "bool":
             return None
         t = unit_test(ap)
-        if t and t[0] in ("ne", "eq") and any(b == (("arg", 2), ()) for b in t[1]):
+        if t and t[0] in ("ne", "eq") and any(b == TOP for b in t[1]):
             return {"false"} if t[0] == "ne" else {"true"}
         return None
     k2.gate_rule(chk, fn, "conformance-gate", fk, "value-conforms-to-list", divs, value_vs_first,
@@ -306,7 +316,7 @@ def to_list_gates(chk, F):
                 member_cl = (c, s, t, ap)
     # the member test may also be inline (loop) in to_list itself
     inline = [(s, unit_test(ap)) for s, kind, ap, info in k2.switch_tests(fn) if kind == "bool" and unit_test(ap) and unit_test(ap)[0] in ("ne", "eq")
-              and not any(b == (("arg", 2), ()) for b in unit_test(ap)[1])]
+              and not any(b == TOP for b in unit_test(ap)[1])]
     if member_cl is None and not inline:
         chk.finding("conformance-gate", fk, "members-conform", fn.where(), "no test compares the list members' dimensionalities")
         return
@@ -340,7 +350,7 @@ def to_list_gates(chk, F):
                    "the member test's error does not stop the decomposition")
     else:
         for s, t in inline:
-            reach, _ = k2.cut_gate(fn, divs, lambda kind, ap, info: ({"false"} if unit_test(ap)[0] == "ne" else {"true"}) if kind == "bool" and unit_test(ap) and unit_test(ap)[0] in ("ne", "eq") and not any(b == (("arg", 2), ()) for b in unit_test(ap)[1]) else None)
+            reach, _ = k2.cut_gate(fn, divs, lambda kind, ap, info: ({"false"} if unit_test(ap)[0] == "ne" else {"true"}) if kind == "bool" and unit_test(ap) and unit_test(ap)[0] in ("ne", "eq") and not any(b == TOP for b in unit_test(ap)[1]) else None)
             ok = all(reach.values())
             why = "members compared inline before dividing"
             if not ok:
